@@ -1467,6 +1467,13 @@ class SolidSceneKind(SceneKind):
 class VoxelKind(Kind):
     name = "voxel"
 
+    def __init__(self, at_identity=False):
+        # at_identity: the grid starts with the identity as its transform (what every grid built
+        # from a plain array has), so that a near-identity step leaves its own matrix near the identity
+        self.at_identity = bool(at_identity)
+        if at_identity:
+            self.name = "voxel:identity_start"
+
     def build(self, rng):
         import trimesh
 
@@ -1477,6 +1484,8 @@ class VoxelKind(Kind):
             self._m[2, 3, 4] = True
             T = np.diag([0.5, 0.5, 0.5, 1.0])
             T[:3, 3] = [1.0, -2.0, 0.25]
+            if self.at_identity:
+                T = np.eye(4)
             self._t = T
         vg = trimesh.voxel.VoxelGrid(self._m.copy(), transform=self._t.copy())
         vg.metadata["name"] = "grid"
@@ -1498,7 +1507,9 @@ class VoxelKind(Kind):
         det, sim, s, band = props(M)
         cw = apply_ref(M, s0.extra["corners_world"])
         want = np.array([cw.min(axis=0), cw.max(axis=0)])
-        tol = (4e-8 if band else 1e-10) * (1 + np.abs(want).max())
+        # (in-band matrices are judged like any other since round 4: the 4e-8 allowance hid a grid
+        # at the identity ignoring every step within 1e-8 of it)
+        tol = 1e-10 * (1 + np.abs(want).max())
         if np.abs(s1.extra["bounds"] - want).max() > tol:
             run.violation(key("law=bounds"), "VoxelGrid.bounds is not the AABB of the transformed cell box", dict(case, got=s1.extra["bounds"], expected=want))
 
@@ -1806,6 +1817,7 @@ def _kinds_list(quick):
     ks.append(SceneKind())
     ks.append(SolidSceneKind())
     ks.append(VoxelKind())
+    ks.append(VoxelKind(at_identity=True))
     # last: by far the most expensive cells (a tessellation of 3840 faces, exact integrals) - if the
     # budget is cut by load it is cut here, after every anchor has been entered
     ks.append(PrimitiveKind("Capsule"))
@@ -1935,7 +1947,7 @@ def replay(run, case):
     elif k == "scene":
         kind = SolidSceneKind() if case.get("variant") == "solids" else SceneKind()
     else:
-        kind = VoxelKind()
+        kind = VoxelKind(at_identity=k.endswith("identity_start"))
     kind.salt = int(case.get("salt", 0))
     table = {}
     if case.get("op") == "compose":
